@@ -1,3 +1,4 @@
+import Restful.Lemmas.TieImpTactic
 import Restful.Lemmas.TieImpVocab
 import Restful.Lemmas.TieImpAllowed
 import Restful.Lemmas.TieImpLoop
@@ -285,24 +286,12 @@ theorem filter_tie_gen (X : ImpGen.Ext) (hitoa : X.strconv_Itoa = Cors.itoa) (E 
     simp only [ho1, ho2, Bool.false_eq_true, if_false]
     by_cases ha : Cors.isOriginAllowed X.strings_ToLower (cfgOf c) rq.origin = true
     · simp only [ha, Bool.not_true, Bool.false_eq_true, if_false]
-      by_cases hm : rq.method = "OPTIONS".toList
-      · have hm1 : (rq.method != "OPTIONS".toList) = false := by rw [hm]; exact bne_self_eq_false _
-        simp only [hm1, Bool.false_eq_true, if_false]
-        simp only [hm, ne_eq, not_true_eq_false, if_false]
-        by_cases hq : rq.acrm = []
-        -- "no Access-Control-Request-Method" in whichever polarity the code tests it
-        · have hq1 : (rq.acrm != []) = false := by rw [hq]; rfl
-          have hq2 : (rq.acrm == []) = true := by rw [hq]; rfl
-          simp only [hq1, hq2, Bool.false_eq_true, if_false, if_true]
-          simp only [hq, ne_eq, not_true_eq_false, if_false, Option.map_some, if_true, push]
-        · have hq1 : (rq.acrm != []) = true := by simpa using hq
-          have hq2 : (rq.acrm == []) = false := by simpa using hq
-          simp only [hq1, hq2, hq, ne_eq, not_false_eq_true, if_true, Option.map_map, Bool.false_eq_true, if_false]
-          cases Cors.doPreflightRequest X.strings_ToLower E (cfgOf c) tbl rq with
-          | none => rfl
-          | some r => simp only [Option.map_some, Option.bind_some, Function.comp, Bool.false_eq_true, if_false]
-      · have hm1 : (rq.method != "OPTIONS".toList) = true := by simpa using hm
-        simp only [hm1, hm, ne_eq, not_false_eq_true, if_true, Option.map_some, push]
+      -- "is it OPTIONS" and "is there an Access-Control-Request-Method", in whichever order, nesting and polarity the
+      -- code tests them (two guards, or one `||` / `&&` condition): all four cases, each closed by evaluation
+      simp only [str_beq_decide, str_bne_decide, str_isEmpty_decide]
+      by_cases hm : rq.method = "OPTIONS".toList <;> by_cases hq : rq.acrm = [] <;>
+        cases hp : Cors.doPreflightRequest X.strings_ToLower E (cfgOf c) tbl rq <;>
+        simp [hm, hq, push, Function.comp, -String.reduceToList]
     · simp only [ha, Bool.not_false, if_true, Option.map_some, List.append_nil, push]
 
 theorem filter_tie' (X : ImpGen.Ext) (hitoa : X.strconv_Itoa = Cors.itoa) (E : ReEnv)
